@@ -24,19 +24,10 @@ def showId : Option Identity → String
 def decIds (t : String) : Option (List Str) :=
   if t == "nil" then none else some (decL t)
 
-/-- `security.Authenticate` + `authenticationManager.authenticate` as a function of the flags, the peer
-    kind and what each configured authenticator answers (`none` = error). `Except.error` = error. -/
-def authenticate (xdsAuth : Bool) (peer : String) (plaintextOK : Bool) (results : List (Option (List Str))) :
-    Option (Option (List Str)) :=
-  if !xdsAuth then some none
-  else if peer == "none" then none
-  else if peer != "tls" && !plaintextOK then some none
-  else
-    match results.find? (fun r => match r with
-      | some ids => !ids.isEmpty
-      | none => false) with
-    | some (some ids) => some (some ids)
-    | _ => none
+def decPeer : String → Peer
+  | "tls" => .tls
+  | "plain" => .plain
+  | _ => .none
 
 def showRType (t : RType) : String := l2t t.str
 
@@ -105,7 +96,7 @@ def stepD (d : DState) (toks : List String) : DState × String :=
     | some (cfg, .denied) => (d, s!"cfg={l2t cfg} denied")
     | some (cfg, .ok v) => (d, s!"cfg={l2t cfg} ok {showId v}")
   | "authn" :: xa :: peer :: pt :: rs =>
-    match authenticate (tokBool xa) peer (tokBool pt) (rs.map fun r => if r == "err" then none else some (decL r)) with
+    match authenticate (tokBool xa) (decPeer peer) (tokBool pt) (rs.map fun r => if r == "err" then none else some (decL r)) with
     | none => (d, "err")
     | some none => (d, "nil")
     | some (some ids) => (d, "ids " ++ encList (ids.map String.ofList))
